@@ -105,6 +105,11 @@ class C15(Prop):
                 e["outcome"] = "error"
                 e["exc"] = type(x).__name__
             evs.append(e)
+        # the reported capabilities after all that use: still those of the set the remote was made from
+        evs.append({"ev": "Load", "set": evs[0]["set"], "via": scn["via"] + "-after-use",
+                    "modes": sorted(modes[m.value] for m in remote.supported_modes),
+                    "min": remote.min_temperature, "max": remote.max_temperature,
+                    "toggle": bool(remote.on_off_type), "sep": bool(remote.separated_swing_command), "rid": t(remote.remote_id)})
         return evs
 
     def nontrivial(self, ev):
